@@ -36,6 +36,30 @@ theorem t_deg_normalize_signed_lo (a : K) (h : 0 < FRem.frem a (360 : K)) (h2 : 
     t_deg_normalize_signed_lo (envL [a]) =
       .okG [Angle.normalizeSigned degFull a] [.cmp (FRem.frem a 360) 0 .gt, .cmp (360 / 2) (FRem.frem a 360) .gt] := by
   simp [Angle.normalizeSigned, Angle.normalize, not_lt.mpr h.le, not_lt.mpr h2.le]; tr_auto
+theorem t_deg_normalize_signed_neg_hi (a : K) (h : FRem.frem a (360 : K) < 0) (h2 : (360 : K) / 2 < FRem.frem a 360 + 360) :
+    t_deg_normalize_signed_neg_hi (envL [a]) =
+      .okG [Angle.normalizeSigned degFull a] [.cmp (FRem.frem a 360) 0 .lt, .cmp (360 / 2) (FRem.frem a 360 + 360) .lt] := by
+  simp [Angle.normalizeSigned, Angle.normalize, h, h2]; tr_auto
+theorem t_deg_normalize_signed_neg_lo (a : K) (h : FRem.frem a (360 : K) < 0) (h2 : FRem.frem a 360 + 360 < (360 : K) / 2) :
+    t_deg_normalize_signed_neg_lo (envL [a]) =
+      .okG [Angle.normalizeSigned degFull a] [.cmp (FRem.frem a 360) 0 .lt, .cmp (360 / 2) (FRem.frem a 360 + 360) .gt] := by
+  simp [Angle.normalizeSigned, Angle.normalize, h, not_lt.mpr h2.le]; tr_auto
+theorem t_rad_normalize_signed_hi (a : K) (h : 0 < FRem.frem a (Lits.radFull : K)) (h2 : (Lits.radFull : K) / 2 < FRem.frem a Lits.radFull) :
+    t_rad_normalize_signed_hi (envL [a]) =
+      .okG [Angle.normalizeSigned Lits.radFull a]
+        [.cmp (FRem.frem a Lits.radFull) 0 .gt, .cmp (Lits.radFull / 2) (FRem.frem a Lits.radFull) .lt] := by
+  simp [Angle.normalizeSigned, Angle.normalize, not_lt.mpr h.le, h2]; tr_auto
+theorem t_rad_normalize_signed_lo (a : K) (h : 0 < FRem.frem a (Lits.radFull : K)) (h2 : FRem.frem a Lits.radFull < (Lits.radFull : K) / 2) :
+    t_rad_normalize_signed_lo (envL [a]) =
+      .okG [Angle.normalizeSigned Lits.radFull a]
+        [.cmp (FRem.frem a Lits.radFull) 0 .gt, .cmp (Lits.radFull / 2) (FRem.frem a Lits.radFull) .gt] := by
+  simp [Angle.normalizeSigned, Angle.normalize, not_lt.mpr h.le, not_lt.mpr h2.le]; tr_auto
+theorem t_rad_opposite (a : K) (h : 0 < FRem.frem (a + Lits.radFull / 2) (Lits.radFull : K)) :
+    t_rad_opposite (envL [a]) = .okG [Angle.opposite Lits.radFull a] [.cmp (FRem.frem (a + Lits.radFull / 2) Lits.radFull) 0 .gt] := by
+  simp [Angle.normalize, not_lt.mpr h.le]; tr_auto
+theorem t_deg_opposite_neg (a : K) (h : FRem.frem (a + 360 / 2) (360 : K) < 0) :
+    t_deg_opposite_neg (envL [a]) = .okG [Angle.opposite degFull a] [.cmp (FRem.frem (a + 360 / 2) 360) 0 .lt] := by
+  simp [Angle.normalize, h]; tr_auto
 theorem t_deg_opposite (a : K) (h : 0 < FRem.frem (a + 360 / 2) (360 : K)) :
     t_deg_opposite (envL [a]) = .okG [Angle.opposite degFull a] [.cmp (FRem.frem (a + 360 / 2) 360) 0 .gt] := by
   simp [Angle.normalize, not_lt.mpr h.le]; tr_auto
